@@ -13,6 +13,9 @@ NAMES = {'A': 6, 'B': 20, 'E_X': 3, 'INC': 5}
 LEAVES_FULL = [('0', 0, 'dec'), ('1', 1, 'dec'), ('2', 2, 'dec'), ('3', 3, 'dec'), ('7', 7, 'dec'), ('010', 8, 'oct'),
                ('017', 15, 'oct'), ('0x10', 16, 'hex'), ('0xFF', 255, 'hex'), ('1000', 1000, 'dec'),
                ('A', 6, 'name'), ('B', 20, 'name'), ('E_X', 3, 'name'), ('INC', 5, 'name')]
+# literals beyond 2**53: an evaluator that goes through floating point rounds them
+LEAVES_BIG = [('0xFFFFFFFFFFFFFFFF', 2 ** 64 - 1, 'hex'), ('0x0100000000000000', 2 ** 56, 'hex'),
+              ('9007199254740993', 2 ** 53 + 1, 'dec')]
 LEAVES_CORE = [('1', 1, 'dec'), ('2', 2, 'dec'), ('7', 7, 'dec'), ('0x10', 16, 'hex'), ('A', 6, 'name'), ('E_X', 3, 'name')]
 
 
@@ -20,15 +23,18 @@ class Invalid(Exception):
     pass
 
 
-def evaluate(tree):
+def evaluate(tree, env=None):
     """Own integer evaluator; raises Invalid outside the property's domain
-    (division needs non-negative operands and a non-zero divisor; shift counts 0..3)."""
+    (division needs non-negative operands and a non-zero divisor; shift counts 0..3).
+    env, if given, overrides the values of names."""
     k = tree[0]
     if k == 'leaf':
+        if env is not None and tree[3] == 'name':
+            return env[tree[1]]
         return tree[2]
     if k == 'neg':
-        return -evaluate(tree[1])
-    op, a, b = tree[1], evaluate(tree[2]), evaluate(tree[3])
+        return -evaluate(tree[1], env)
+    op, a, b = tree[1], evaluate(tree[2], env), evaluate(tree[3], env)
     if op == '+':
         return a + b
     if op == '-':
@@ -133,13 +139,16 @@ def universe(tier):
             (3, LEAVES_CORE[:4] if tier == 'quick' else LEAVES_CORE)]
     if tier == 'quick':
         plan[3] = (3, [LEAVES_CORE[1], LEAVES_CORE[2], LEAVES_CORE[4]])
+    plan.append((1, LEAVES_BIG + LEAVES_CORE[:3]))
+    if tier == 'thorough':
+        plan.append((2, LEAVES_BIG + LEAVES_CORE[:2]))
     for nops, leaves in plan:
         for t in trees(nops, leaves):
             try:
                 v = evaluate(t)
             except Invalid:
                 continue
-            if abs(v) >= 1 << 62:
+            if not -(1 << 63) < v < (1 << 63):
                 continue
             text = render_min(t)
             if text in seen:
